@@ -21,6 +21,6 @@ def main():
     seen = set()
     for v in r['violations']:
         if v['msg'] in seen: continue
-        seen.add(v['msg']); print('VIOL', v['kind'], '|', v['msg'], '|', v['stack'][-3:], v['rendered'])
+        seen.add(v['msg']); print('VIOL', v['kind'], '|', v['msg'], '|', v['stack'][-3:], v.get('texts') or v['rendered'])
     print('violations', len(r['violations']))
 main()
